@@ -85,6 +85,8 @@ def cases(run: Run):
                 pos = [round(rng.uniform(-7000, 7000), 3) for _ in range(3)]
                 tgt = rng.choice([10001, 10002, 10003])
             obs.append({"id": i + 1, "pos": pos, "tgt": tgt, "sensor": rng.choice([60001, 60002]), "epoch": rng.choice([1, 1, 2])})
+        if len(out) % 7 == 0:
+            out.append({"op": "flags", "target_realtime": rng.random() < 0.5, "sensor_realtime": rng.random() < 0.5})
         out.append({"op": "obs", "jd_style": rng.choice(["datetime", "clock", "clock"]), "load_epoch": rng.choice([1, 2, 2]), "obs": obs})
     return out
 
@@ -215,13 +217,62 @@ def impl_obs(c, tmp):
         got = CentralizedTaskingEngine.loadImportedObservations(stub, START + timedelta(seconds=60 * c.get("load_epoch", 1)))
     finally:
         ce.ray = old_ray
+    # the same database through the engine's own step (`assess` with tasking switched off: imported observations only), epoch after epoch:
+    # at every epoch the engine holds the observations stored for that epoch, nothing left over from the epochs before
+    from resonaate.tasking.engine.engine_base import TaskingEngine
+
+    eng = SimpleNamespace(_importer_db=idb, logger=NULL, _sensor_store=store, _realtime_obs=False, _observations=[], _missed_observations=[], _saved_observations=[],
+                          _saved_missed_observations=[], sensor_changes={}, num_targets=1, num_sensors=2, num_metrics=1, sensor_list=[60001, 60002], target_list=[10001],
+                          visibility_matrix=None, decision_matrix=None, reward_matrix=None, metric_matrix=None, unique_id=1)
+    eng._attachObsMetadata = lambda ob: CentralizedTaskingEngine._attachObsMetadata(eng, ob)
+    eng.loadImportedObservations = lambda when: CentralizedTaskingEngine.loadImportedObservations(eng, when)
+    eng.saveObservations = lambda obs: TaskingEngine.saveObservations(eng, obs)
+    held = []
+    ce.ray = SimpleNamespace(get=lambda ref: ref)
+    try:
+        for k in (1, 2, 3):
+            CentralizedTaskingEngine.assess(eng, START + timedelta(seconds=60 * (k - 1)), START + timedelta(seconds=60 * k))
+            held.append(sorted(int(round(ob.vel_z_km_p_sec)) for ob in eng._observations))
+    finally:
+        ce.ray = old_ray
     for ob in got:
         if ob.measurement is not store[ob.sensor_id].sensors.measurement:
             raise ValueError("imported observation carries another sensor's measurement metadata")
     ids = [int(round(ob.vel_z_km_p_sec)) for ob in got]
     tgts = [int(ob.target_id) for ob in got]
     del idb
-    return {"ids": ids, "targets": tgts, "unchanged": sha(path) == before}
+    return {"ids": ids, "targets": tgts, "unchanged": sha(path) == before, "held": held}
+
+
+def impl_flags(c, tmp):
+    """which agents are imported and which propagate themselves is configured per kind of agent: the real factories must build each kind with its own flag"""
+    import resonaate.scenario.clock as clk
+    import scen
+    from resonaate.agents.sensing_agent import SensingAgent
+    from resonaate.agents.target_agent import TargetAgent
+    from resonaate.dynamics import dynamicsFactory
+    from resonaate.dynamics.two_body import TwoBody
+    from resonaate.scenario.config.agent_config import AgentConfig, SensingAgentConfig
+    from resonaate.scenario.config.geopotential_config import GeopotentialConfig
+    from resonaate.scenario.config.perturbations_config import PerturbationsConfig
+    from resonaate.scenario.config.propagation_config import PropagationConfig
+
+    class _Null:
+        def insertData(self, *a, **k):
+            return None
+
+    old = clk.getDBConnection
+    clk.getDBConnection = lambda: _Null()
+    try:
+        clock = clk.ScenarioClock(START, 600.0, 60.0)
+    finally:
+        clk.getDBConnection = old
+    prop = PropagationConfig(target_realtime_propagation=c["target_realtime"], sensor_realtime_propagation=c["sensor_realtime"])
+    tcfg = AgentConfig(**scen.target_cfg(10001, [7000.0, 0.0, 0.0], [0.0, 7.0, 2.8]))
+    scfg = SensingAgentConfig(**scen.radar_cfg(60001, 10.0, 20.0))
+    tgt = TargetAgent.fromConfig(tcfg, clock, TwoBody(), prop)
+    sen = SensingAgent.fromConfig(scfg, clock, dynamicsFactory(scfg, prop, GeopotentialConfig(), PerturbationsConfig(), clock), prop)
+    return {"target": bool(tgt.realtime), "sensor": bool(sen.realtime)}
 
 
 def impl_mixed(c, tmp):
@@ -301,12 +352,14 @@ def model_lines(c):
 def run_cases(run: Run, cs):
     tmp = tempfile.mkdtemp(prefix="verif-c19-")
     try:
-        impls = [guarded({"ephem": impl_ephem, "obs": impl_obs, "mixed": impl_mixed}[c["op"]], c, tmp) for c in cs]
+        impls = [guarded({"ephem": impl_ephem, "obs": impl_obs, "mixed": impl_mixed, "flags": impl_flags}[c["op"]], c, tmp) for c in cs]
     finally:
         shutil.rmtree(tmp, ignore_errors=True)
     # model lines: ephemeris cases need the model state threaded through the steps; one driver pass per step depth
     lines, index = [], []
     for ci, (c, i) in enumerate(zip(cs, impls)):
+        if c["op"] == "flags":
+            continue
         if c["op"] == "obs":
             index.append((ci, None, len(lines)))
             lines.extend(model_lines(c))
@@ -342,6 +395,11 @@ def run_cases(run: Run, cs):
             run.fail(f"{c['op']}:raises", c, f"{i[1]}")
             continue
         r = i[1]
+        if c["op"] == "flags":
+            if r["target"] != c["target_realtime"] or r["sensor"] != c["sensor_realtime"]:
+                run.fail("flags", c, f"configured target_realtime_propagation={c['target_realtime']}, sensor_realtime_propagation={c['sensor_realtime']}: the factories built a target with "
+                                     f"realtime={r['target']} and a sensor with realtime={r['sensor']} (an agent that is not realtime takes its states from the importer)")
+            continue
         if c["op"] == "mixed":
             agents = c["targets"] + c["sensors"]
             regs = [a for a in agents if not c["realtime"][str(a)]]
@@ -386,6 +444,13 @@ def run_cases(run: Run, cs):
                 fails.append(("obs:foreign", f"observations {r['ids']} include one not stored for the epoch"))
             if sorted(set(keys_out)) != sorted(set(key(o) for o in stored)) or len(keys_out) != len(set(keys_out)):
                 fails.append(("obs:lost-or-duplicated", f"stored {[(o['id'], o['tgt']) for o in stored]} -> loaded ids {r['ids']}"))
+            for k, ids_k in enumerate(r.get("held", []), start=1):
+                want_keys = sorted(set(key(o) for o in c["obs"] if o["epoch"] == k))
+                got_keys = sorted(key(byid[x]) for x in ids_k if x in byid)
+                if got_keys != want_keys or any(x not in byid for x in ids_k):
+                    fails.append(("obs:held", f"at epoch {k} the engine (imported observations only) holds observations {ids_k}; stored for that epoch: "
+                                              f"{[(o['id'], o['tgt']) for o in c['obs'] if o['epoch'] == k]}"))
+                    break
             if any(byid[x]["tgt"] != t for x, t in zip(r["ids"], r["targets"]) if x in byid):
                 fails.append(("obs:wrong-target", "an observation reached a different target"))
             if not r["unchanged"]:
